@@ -3,7 +3,7 @@
 (A) TLC checks the reference model BTreeMap.tla against itself (cursors vs lookups, laws of a map, byte order of the
     key universes, RLE order = plain lexicographic order).
 (B) behaviours of the model replayed on the real BTree (MmapStorage / memory pages): every transition TLC explores over
-    a 6-key universe from seven preloaded trees (history hidden by VIEW), every transition over cells that fit a page
+    a 6-key universe from seven preloaded trees, every sequence of three inserts into a tree whose root interior page is full (U36: interior splits at every child position) (history hidden by VIEW), every transition over cells that fit a page
     but cannot be split in two, and motif-driven random walks (-simulate) of 240 steps over 40 keys / 120 steps over
     twenty ~3 KB keys, each under the three rightmost-hint modes.  After every step the result and the full content
     (get of every key, cursor first->end, seek(k)->end for every k, last->begin, BTreeReader::get) are compared with
